@@ -49,6 +49,10 @@ pub struct Case {
     /// absolute tolerance 1e-2 while the other components keep theirs: pins tolerance indexing
     #[serde(default)]
     pub dummy: u8,
+    /// random dissipative vector field checked against the harness's reference integrator
+    /// (replaces `prob`; intrinsic duration = prob.warp.theta)
+    #[serde(default)]
+    pub field: Option<crate::field::FieldSpec>,
 }
 
 fn run_one(c: &Case, prob: &Prob, rtol: Tol, atol: Tol, first_step: Option<f64>) -> Result<Solution, String> {
@@ -156,7 +160,153 @@ fn coarse_step_interpolation(c: &Case, prob: &Prob, rtol: Tol, atol: Tol, bound:
     true
 }
 
+/// K1/K2 diagnoses for a problem given by closures (used by the random-field family, whose exact
+/// solution is the reference integrator): `run_plain` = the same run without t_eval, `exact_at` = exact
+/// states at a list of times in integration order.
+fn diagnose_generic(run_plain: &dyn Fn() -> Option<Solution>, exact_at: &dyn Fn(&[f64]) -> Option<Vec<Vec<f64>>>, s_with: &Solution, has_t_eval: bool, d: f64, rate: f64, bound: f64) -> &'static str {
+    let s = match run_plain() {
+        Some(s) => s,
+        None => return "",
+    };
+    let ex = match exact_at(&s.t) {
+        Some(e) => e,
+        None => return "",
+    };
+    let errs: Vec<f64> = s.y.iter().zip(&ex).map(|(a, b)| max_abs_diff(a, b)).collect();
+    // K1: first violation at a step at least 2.5x its predecessor, error before it small
+    if let Some(i) = errs.iter().position(|e| *e > bound) {
+        if i >= 2 {
+            let h = (s.t[i] - s.t[i - 1]).abs();
+            let hp = (s.t[i - 1] - s.t[i - 2]).abs();
+            if h >= 2.5 * hp && errs[i - 1] <= 0.1 * bound {
+                return "C01-overlong-step";
+            }
+        }
+        return "";
+    }
+    // K2: all step ends fine; violating requested times strictly inside coarse steps
+    if !has_t_eval {
+        return "";
+    }
+    let exw = match exact_at(&s_with.t) {
+        Some(e) => e,
+        None => return "",
+    };
+    for ((t, y), e) in s_with.t.iter().zip(&s_with.y).zip(&exw) {
+        if max_abs_diff(y, e) > bound {
+            let ok = s.t.windows(2).any(|w| (t - w[0]) * d > 0.0 && (w[1] - t) * d > 0.0 && rate * (w[1] - w[0]).abs() > 1.0);
+            if !ok {
+                return "";
+            }
+        }
+    }
+    "C01-coarse-step-interpolation"
+}
+
+fn check_field(c: &Case, fs: &crate::field::FieldSpec) -> Outcome {
+    let sp = &c.span;
+    if c.method == Meth::RK4 {
+        return Outcome::triv("field-family-is-for-error-controlled-methods");
+    }
+    let fld = crate::field::Field::new(fs, sp.x0, sp.xend, c.prob.warp.theta);
+    let none: Vec<EvSpec> = vec![];
+    let name = c.method.name();
+    let mut rungs = 0;
+    let mut worst = 0.0f64;
+    let mut nacc_last = 0;
+    for rung in 0..2 {
+        let r = 10f64.powf(-c.e - 2.0 * rung as f64);
+        let atol = r * 10f64.powf(c.atol_q[0]);
+        let mut instr = Instr::new(&fld, &none);
+        instr.dir = sp.dir();
+        let o = RunOpts { method: c.method, rtol: Tol::S(r), atol: Tol::S(atol), first_step: None, max_step: None, max_steps: None, t_eval: c.t_eval.as_ref().map(|f| fracs_to_times(sp, f)), dense: false };
+        let s = match solve(&instr, sp.x0, sp.xend, &fs.y0, &o) {
+            RunResult::Ok(s) => s,
+            other => return Outcome::triv(format!("run:{}", other.describe().chars().take(30).collect::<String>())),
+        };
+        if s.status != Status::Success {
+            if rung == 0 {
+                return Outcome::triv(format!("status:{}", status_name(s.status)));
+            }
+            break;
+        }
+        let reference = match crate::field::reference(&fld, &s.t) {
+            Some(r) => r,
+            None => return Outcome::triv("reference-did-not-converge"),
+        };
+        let mut emax = 0.0f64;
+        let mut ymax = 0.0f64;
+        for (y, yr) in s.y.iter().zip(&reference) {
+            emax = emax.max(max_abs_diff(y, yr));
+            ymax = ymax.max(inf_norm(yr));
+        }
+        let nacc = s.naccpt.max(1) as f64;
+        nacc_last = s.naccpt;
+        // reference accuracy 1e-13 (1+|y|) per interval, accumulated over the samples (contractive flow: no growth)
+        let floor = 64.0 * f64::EPSILON * (1.0 + ymax) * nacc.sqrt() + 2e-13 * (1.0 + ymax) * (s.t.len() as f64) + 8.0 * ulp(sp.x0.abs().max(sp.xend.abs())) * fld.rate_t() * (1.0 + ymax);
+        let tolscale = atol + r * ymax;
+        let bound = C_BOUND * nacc * tolscale + floor;
+        if !emax.is_finite() || emax > bound {
+            let run_plain = || {
+                let mut i2 = Instr::new(&fld, &none);
+                i2.dir = sp.dir();
+                let o2 = RunOpts { method: c.method, rtol: Tol::S(r), atol: Tol::S(atol), first_step: None, max_step: None, max_steps: None, t_eval: None, dense: false };
+                match solve(&i2, sp.x0, sp.xend, &fs.y0, &o2) {
+                    RunResult::Ok(s) => Some(s),
+                    _ => None,
+                }
+            };
+            let exact_at = |ts: &[f64]| crate::field::reference(&fld, ts);
+            let key = if emax.is_finite() { diagnose_generic(&run_plain, &exact_at, &s, c.t_eval.is_some(), sp.dir(), fld.rate_t(), bound) } else { "" };
+            return Outcome::viol_key(key, format!("{}: random dissipative field (n={}): max deviation {:e} from the reference integrator exceeds {}*naccpt*tolscale + floor = {:e} (naccpt {}, rtol {:e}, atol {:e})", name, fs.n, emax, C_BOUND, bound, s.naccpt, r, atol));
+        }
+        worst = worst.max((emax - floor).max(0.0) / (nacc * tolscale));
+        rungs += 1;
+    }
+    Outcome::pass(format!("{}:field", name), nacc_last >= 3, json!({"rungs": rungs, "field_err_over_nacc_tolscale": worst, "n": fs.n}))
+}
+
+/// RADAU5's internal tolerances (documented transformation rtol' = 0.1 rtol^(2/3), atol' = rtol' atol/rtol):
+/// the scale its third-order quantities -- the embedded estimate and the cubic dense output -- are held to
+pub fn radau_internal_tolscale(rt: &[f64], at: &[f64], ym: &[f64]) -> f64 {
+    (0..rt.len())
+        .map(|j| {
+            if rt[j] > 0.0 {
+                let r = 0.1 * rt[j].powf(2.0 / 3.0);
+                r * at[j] / rt[j] + r * ym[j]
+            } else {
+                at[j]
+            }
+        })
+        .fold(0.0, f64::max)
+}
+
+/// Third diagnosis (K3): Radau, requested output times only.  The collocation interpolant is a cubic
+/// (order 3) while the step has order 5; the step size follows the third-order estimate, so the dense
+/// output is accurate to the *internal* tolerance 0.1*tol^(2/3), not to tol: at tolerances below ~1e-8
+/// a requested time misses the C01 bound although every step end meets it.
+fn radau_cubic_interpolant(c: &Case, prob: &Prob, rtol: Tol, atol: Tol, bound: f64, relaxed: f64, s_with: &Solution) -> bool {
+    if c.method != Meth::RADAU || c.t_eval.is_none() {
+        return false;
+    }
+    let mut c2 = c.clone();
+    c2.t_eval = None;
+    let s = match run_one(&c2, prob, rtol, atol, None) {
+        Ok(s) => s,
+        Err(_) => return false,
+    };
+    for i in 0..s.t.len() {
+        if max_abs_diff(&s.y[i], &prob.exact(s.t[i])) > bound {
+            return false;
+        }
+    }
+    s_with.t.iter().zip(&s_with.y).all(|(t, y)| max_abs_diff(y, &prob.exact(*t)) <= relaxed)
+}
+
 pub fn check(c: &Case) -> Outcome {
+    if let Some(fs) = &c.field {
+        return check_field(c, fs);
+    }
     let sp = &c.span;
     let use_dummy = c.dummy > 0 && matches!(c.mode, TolMode::AbsDom) && c.method != Meth::RK4;
     let spec = if use_dummy {
@@ -298,6 +448,8 @@ pub fn check(c: &Case) -> Outcome {
                 "C01-overlong-step"
             } else if emax.is_finite() && coarse_step_interpolation(c, &prob, rtol_k.clone(), atol_k.clone(), bound, &s) {
                 "C01-coarse-step-interpolation"
+            } else if emax.is_finite() && radau_cubic_interpolant(c, &prob, rtol_k.clone(), atol_k.clone(), bound, C_BOUND * kappa * nacc * radau_internal_tolscale(&rt_v, &at_v, &ym) + floor, &s) {
+                "C01-radau-cubic-interpolant"
             } else {
                 ""
             };
@@ -384,10 +536,29 @@ pub fn strategy() -> BoxedStrategy<Case> {
         )
             .prop_map(move |(prob, span, method, e, rtol_vec, atol_q, atol_vector, t_eval, analytic_jac, (rk4_steps, rk4_frac, dummy))| {
                 let e = if method == Meth::RK23 { 3.0 + (e - 3.0) * 0.5 } else { e };
-                Case { prob, span, method, e, rtol_vec, atol_q, atol_vector, mode: mode.clone(), t_eval, analytic_jac, rk4_steps, rk4_frac, dummy }
+                Case { prob, span, method, e, rtol_vec, atol_q, atol_vector, mode: mode.clone(), t_eval, analytic_jac, rk4_steps, rk4_frac, dummy, field: None }
             })
     };
+    let field = (1usize..=6).prop_flat_map(|n| {
+        (
+            proptest::collection::vec(fr(-1.0, 1.0), n * n..=n * n),
+            proptest::collection::vec(fr(-1.0, 1.0), n * n..=n * n),
+            proptest::collection::vec(fr(-1.0, 1.0), n..=n),
+            proptest::collection::vec(fr(-1.0, 1.0), n..=n),
+            proptest::collection::vec(fr(0.2, 3.0), n..=n),
+            proptest::collection::vec(fr(0.0, 6.28), n..=n),
+            proptest::collection::vec(fr(0.0, 1.0), n..=n),
+            proptest::collection::vec(fr(-1.5, 1.5), n..=n),
+        )
+            .prop_map(move |(b, w, c, s, om, psi, dextra, y0)| crate::field::FieldSpec { n, b, w, c, s, om, psi, dextra, y0 })
+    });
+    let field_case = (body(prob_spec(1, 0.5, 6.0), TolMode::Mixed), field).prop_map(|(mut c, f)| {
+        c.e = 3.0 + (c.e - 3.0) * 0.75; // 1e-3 .. 1e-6, second rung two decades tighter
+        c.field = Some(f);
+        c
+    });
     prop_oneof![
+        1 => field_case,
         6 => body(prob_spec(8, 0.3, 12.0), TolMode::Mixed),
         2 => body(prob_spec(6, 0.3, 8.0), TolMode::PureAbs),
         2 => body(positive_spec(5), TolMode::PureRel),
@@ -404,7 +575,7 @@ pub fn run(ctx: &Ctx, known: &[Known]) -> Report {
     let stats = run_generated(ctx, "C01", "gen", &strategy, &check, cases, known);
     Report {
         id: "C01".into(),
-        rule: "cases = closed-form problems (stacked linear / logistic / Riccati / Bernoulli / planar blocks, n<=8, composed with a monotone time-warp and a well-conditioned linear mixing) x spans (both directions) x six methods; error-controlled methods run a tolerance ladder rtol, rtol/100, rtol/10^4 starting at 1e-3..1e-7 (RK23 1e-3..1e-5), atol scalar or per component, rtol scalar or per component, also pure absolute (rtol = 0), absolute-dominated (rtol = 1e-11, atol spread over 6 decades, optionally an identically-zero first/last component carrying a loose atol = 1e-2) and pure relative (atol = 0, positive solutions) control, with or without t_eval; RK4 runs 25..200 steps (half of the time with a step that does not divide the span, so the last step is clipped) and two halvings. Oracle: every sample against the exact solution, bound 50*kappa*naccpt*tolscale + rounding floor at every rung; per-component bound for decoupled problems; (rungs where the error grew more than 10x after tightening are counted in the evidence, not asserted); RK4 observed order >= 3.2 (minimum seen over 3e4 RK4 cases: 3.57) when the step resolves the fastest rate (h*rate <= 0.2). Non-trivial = Success, at least 3 accepted steps, some sample error above the rounding floor (RK4: at least one usable order estimate). Distinct = distinct canonical JSON.".into(),
+        rule: "cases = closed-form problems (stacked linear / logistic / Riccati / Bernoulli / planar blocks, n<=8, composed with a monotone time-warp and a well-conditioned linear mixing) x spans (both directions) x six methods; error-controlled methods run a tolerance ladder rtol, rtol/100, rtol/10^4 starting at 1e-3..1e-7 (RK23 1e-3..1e-5), atol scalar or per component, rtol scalar or per component, also pure absolute (rtol = 0), absolute-dominated (rtol = 1e-11, atol spread over 6 decades, optionally an identically-zero first/last component carrying a loose atol = 1e-2) and pure relative (atol = 0, positive solutions) control, with or without t_eval; 1/13 of the cases use randomly generated smooth dissipative vector fields y' = -Dy + B tanh(Wy+c) + s sin(wt+psi) (n<=6, contractive) checked against the harness's own Richardson-extrapolated RK4 reference integrator; RK4 runs 25..200 steps (half of the time with a step that does not divide the span, so the last step is clipped) and two halvings. Oracle: every sample against the exact solution, bound 50*kappa*naccpt*tolscale + rounding floor at every rung; per-component bound for decoupled problems; (rungs where the error grew more than 10x after tightening are counted in the evidence, not asserted); RK4 observed order >= 3.2 (minimum seen over 3e4 RK4 cases: 3.57) when the step resolves the fastest rate (h*rate <= 0.2). Non-trivial = Success, at least 3 accepted steps, some sample error above the rounding floor (RK4: at least one usable order estimate). Distinct = distinct canonical JSON.".into(),
         assumptions: vec![
             "kappa = cond(S) * max block amplification bound (a priori, from the closed forms)".into(),
             "a non-Success status is not a C01 violation (C03/C14 own it); it makes the case trivial".into(),
